@@ -2,6 +2,7 @@ package main
 
 import (
 	"crypto/sha1"
+	"encoding/base64"
 	"encoding/hex"
 	"encoding/json"
 	"fmt"
@@ -13,6 +14,7 @@ import (
 	"strings"
 	"sync"
 	"time"
+	"unicode/utf8"
 )
 
 // ---------------------------------------------------------------------------------
@@ -344,3 +346,34 @@ func (t *traceBuf) add(ev interface{}) {
 	t.n++
 }
 func (t *traceBuf) bytes() []byte { return t.buf }
+
+// ---------------------------------------------------------------------------------
+// rawDoc: a document as bytes; JSON form is a string when it is valid UTF-8, otherwise
+// {"b64": ...} (encoding/json would replace invalid bytes by U+FFFD).
+
+type rawDoc string
+
+func (d rawDoc) MarshalJSON() ([]byte, error) {
+	if utf8.ValidString(string(d)) {
+		return json.Marshal(string(d))
+	}
+	return json.Marshal(map[string]string{"b64": base64.StdEncoding.EncodeToString([]byte(d)), "quoted": strconv.Quote(string(d))})
+}
+
+func (d *rawDoc) UnmarshalJSON(b []byte) error {
+	var s string
+	if json.Unmarshal(b, &s) == nil {
+		*d = rawDoc(s)
+		return nil
+	}
+	var m map[string]string
+	if err := json.Unmarshal(b, &m); err != nil {
+		return err
+	}
+	raw, err := base64.StdEncoding.DecodeString(m["b64"])
+	if err != nil {
+		return err
+	}
+	*d = rawDoc(raw)
+	return nil
+}
